@@ -86,15 +86,26 @@ def specFamily (act : S) : List S :=
   | some p => p.1
   | none => []
 
-/-- a service type without its version suffix (`…:WANIPConnection:2` ↦ `…:WANIPConnection:`) -/
-def kind (ty : S) : S := (ty.reverse.dropWhile Char.isDigit).reverse
-
-/-- hypothesis on a gateway, for one action: only members of the action's family define it, and
-    two offered services of one kind (versions of one service) agree on whether they define it -/
+/-- hypothesis on a gateway, for one action: (1) only members of the action's family define it
+    (a Layer3Forwarding service does not define GetExternalIPAddress, …); (2) a service defining
+    it is not shadowed by an earlier service *of the same type* lacking it (`find_service` returns
+    one service per type; trivially true when every type is offered once, as in every subset of
+    the five service types).  Nothing is assumed about which versions of a service are offered
+    together or which of them implement an optional action. -/
 def stdGateway (d : Dev) (act : S) : Bool :=
   (allServices d).all (fun p => !p.2.acts.contains act || (specFamily act).contains p.1)
-  && (allServices d).all (fun p => (allServices d).all fun q =>
-        !(kind p.1 == kind q.1) || (p.2.acts.contains act == q.2.acts.contains act))
+  && (allServices d).all (fun p => !p.2.acts.contains act ||
+        match findService d p.1 with
+        | some s' => s'.acts.contains act
+        | none => false)
+
+/-- is the action available at all: does some offered service define it (the judge's reading of
+    "not available only when no offered service defines the action") -/
+def availSpec (d : Dev) (act : S) : Bool := (offered d).any fun s => s.acts.contains act
+
+/-- a call with the caller's own alias list is judged for soundness only (the caller restricted
+    the families himself): whatever was sent went to an offered service defining the action -/
+def callSoundOk (off : List Svc) (act : S) (o : CallObs) : Bool := o.na || callOk off act o
 
 /-! ## counters -/
 
